@@ -153,7 +153,7 @@ func init() {
 	checks["c10"] = checkDef{"C10",
 		"adaptive programs on an object-lock bucket (versioned, and unversioned = gateway without a versioning directory; each with the xattr and with the sidecar metadata store), owner root/userplus/admin, a policy that grants two users everything with or without s3:BypassGovernanceRetention: put (with legal-hold / retention headers), PutObjectRetention (GOVERNANCE/COMPLIANCE, future and past dates, by version), PutObjectLegalHold on/off, delete (± bypass header, by version), batch delete, copy onto, PutObjectLockConfiguration (enabled / not enabled, default retention), PutBucketVersioning, DeleteBucket, by root, admin, owner and other users; finally ListObjectVersions, GET and GetObjectRetention of every version ever issued. Compared with Model.Gw.step. Non-trivial = program reaches the bucket; distinct by op list.",
 		[]checkFn{fam("lock-versioned", true, false, 1001, 200, 4000), fam("lock-unversioned", false, false, 1002, 120, 3000),
-			fam("lock-versioned-sidecar", true, true, 1004, 120, 2000), fam("lock-unversioned-sidecar", false, true, 1005, 60, 1000), c10CompleteOntoLocked, c10BypassPerKey}}
+			fam("lock-versioned-sidecar", true, true, 1004, 120, 2000), fam("lock-unversioned-sidecar", false, true, 1005, 60, 1000), c10CompleteOntoLocked, c10BypassPerKey, c10BatchSameKey}}
 }
 
 // c10BypassPerKey: a batch delete of two GOVERNANCE-retained versions with the bypass header, by a user whose
@@ -196,6 +196,48 @@ func c10BypassPerKey(a lib.Args, res *lib.Result) error {
 				return &prog.Op{Kind: "listVersions", Caller: "root", B: b}
 			case 6, 7:
 				return &prog.Op{Kind: "getObject", Caller: "root", B: b, K: keys[len(hist)-6]}
+			}
+			return nil
+		}})
+}
+
+// c10BatchSameKey: a batch delete naming TWO versions of one key, an unprotected one and one under legal hold or
+// retention, in both orders: every entry is checked on its own (key AND version id).
+func c10BatchSameKey(a lib.Args, res *lib.Result) error {
+	return runPrograms(a, res, progOpts{name: "batch-two-versions-of-a-key", prop: "C10", programs: tierN(a, 6, 60), versioning: true, nGateways: 1, seedOff: 1007, classify: c10Classify,
+		next: func(g *prog.Gen, idx int, hist []*prog.Step) *prog.Op {
+			b, k := "bkt-lock", "k1"
+			now := time.Now().Unix()
+			vids := c09KnownVids(hist)[k]
+			switch len(hist) {
+			case 0:
+				return &prog.Op{Kind: "createBucket", Caller: "root", B: b, Lock: true, Valid: true}
+			case 1, 2:
+				return &prog.Op{Kind: "putObject", Caller: "root", B: b, K: k, Put: g.PutSpec(), Valid: true}
+			case 3:
+				// protect ONE of the two versions (the older or the newer one)
+				if len(vids) < 2 {
+					return nil
+				}
+				v := vids[(idx/2)%2]
+				if idx%3 == 0 {
+					return &prog.Op{Kind: "putLegalHold", Caller: "root", B: b, K: k, Vid: v, On: true}
+				}
+				return &prog.Op{Kind: "putRetention", Caller: "root", B: b, K: k, Vid: v, Mode: []string{"C", "G"}[idx%2], Until: now + 3600}
+			case 4:
+				o := &prog.Op{Kind: "deleteObjects", Caller: "root", B: b, Bypass: false}
+				order := []string{vids[0], vids[1]}
+				if idx%2 == 1 {
+					order = []string{vids[1], vids[0]}
+				}
+				for _, v := range order {
+					o.Keys = append(o.Keys, [2]string{k, v})
+				}
+				return o
+			case 5:
+				return &prog.Op{Kind: "listVersions", Caller: "root", B: b}
+			case 6, 7:
+				return &prog.Op{Kind: "getObject", Caller: "root", B: b, K: k, Vid: vids[len(hist)-6]}
 			}
 			return nil
 		}})
